@@ -27,9 +27,10 @@ import (
 // Conn represents a database connection.
 type Conn struct {
 	net.Conn
-	isClosed  bool
-	id        DatabaseID
-	authrized bool
+	closeMutex sync.Mutex
+	isClosed   bool
+	id         DatabaseID
+	authrized  bool
 	sync.Map
 	ts time.Time
 	tracer.Context
@@ -41,22 +42,26 @@ type Conn struct {
 
 func newConnWith(conn net.Conn, tlsState *tls.ConnectionState) *Conn {
 	return &Conn{
-		Conn:      conn,
-		isClosed:  false,
-		authrized: false,
-		id:        0,
-		Map:       sync.Map{},
-		ts:        time.Now(),
-		Context:   nil,
-		tlsState:  tlsState,
-		username:  "",
-		password:  "",
-		uuid:      uuid.New(),
+		Conn:       conn,
+		closeMutex: sync.Mutex{},
+		isClosed:   false,
+		authrized:  false,
+		id:         0,
+		Map:        sync.Map{},
+		ts:         time.Now(),
+		Context:    nil,
+		tlsState:   tlsState,
+		username:   "",
+		password:   "",
+		uuid:       uuid.New(),
 	}
 }
 
 // Close closes the connection.
 func (conn *Conn) Close() error {
+	// The connection is closed by its own goroutine and by Server.Stop.
+	conn.closeMutex.Lock()
+	defer conn.closeMutex.Unlock()
 	if conn.isClosed {
 		return nil
 	}
